@@ -26,8 +26,15 @@ def chain(d):
     """flatten ite(c1, v1, ite(c2, v2, ... vn)) -> ([(c1, v1), (c2, v2)...], vn)"""
     out = []
     while isinstance(d, T.T) and d.op == "ite":
-        out.append((d.args[0], d.args[1]))
-        d = d.args[2]
+        c, a, b = d.args
+        if b.op == "const" and a.op != "const":
+            # merged form ite(!g1 & !g2 & ..., rest, v): every gi alone gives v
+            for x in (c.args if c.op == "and1" else (c,)):
+                out.append((T.bnot(x), b))
+            d = a
+            continue
+        out.append((c, a))
+        d = b
     if isinstance(d, T.T) and d.op != "const" and d.w > 1:
         bit = T._bool_word_bit(d)  # ite(c, 1, 0) is normalised to the zero-extended condition
         if bit is not None:
@@ -73,9 +80,31 @@ def run(chk, tier):
     chk.ob("R3", "result|Ok iff no guard fires: discriminant is a chain of five guards", oks, "discriminant %s" % T.show(ret.discr, 8), where=where)
     if not oks:
         return
-    lt = ch[0][0]
+    # the guard that says "still inside the probe loop" (an in-loop exit), and the four post-loop guards in the documented order;
+    # the order inside the normal form is immaterial, each guard is recognised by its shape and by the error it returns alone
+    conds = [c for c, _ in ch]
+    lts = [c for c in conds if c.op == "ult" and c.args[1].op == "const" and c.args[1].aux == 400]
+    lt = lts[0] if len(lts) == 1 else conds[0]
     ivar = lt.args[0] if lt.op == "ult" and lt.args[1].op == "const" and lt.args[1].aux == 400 else None
-    g = [c for c, _ in ch[1:]]
+    rest = [c for c in conds if c is not lt]
+    errv_ = ret.payloads[1][0]
+    edis_ = errv_.discr if isinstance(errv_, EnumV) else None
+
+    def alone(c):
+        s2 = st.fork()
+        s2.assume = ()
+        for a_ in [T.bnot(lt)] + [T.bnot(o) for o in rest if o is not c] + [c]:
+            add_assume(s2, a_)
+        d_ = LP.simplify_under(ev, s2, edis_) if isinstance(edis_, T.T) else None
+        return VARIANTS[d_.aux] if d_ is not None and d_.op == "const" and d_.aux < len(VARIANTS) else None
+    byname = {}
+    for c in rest:
+        byname.setdefault(alone(c), c)
+    order = ["NotMonotonic", "TinyVariations", "CoarseTimer", "TooManyStuck"]
+    g = [byname.get(n) for n in order]
+    if any(x is None for x in g):
+        # fall back to the textual order of the chain
+        g = rest
     shapes = [
         ("NotMonotonic", "slt", 0, 3, "time_backwards > 3"),
         ("TinyVariations", "ult", 1, 2 * TESTLOOP, "delta_sum < 2*TESTLOOPCOUNT (mean below 2 credits zero bits)"),
